@@ -1139,7 +1139,7 @@ fn prim_root(c: &PrimRoot, _ctx: &Ctx) -> Out {
 }
 
 fn prim_root_case() -> impl Strategy<Value = PrimRoot> {
-    (2u8..5, 0u8..12, any::<u128>(), any::<u64>()).prop_map(|(width, shape, v, s)| {
+    (2u8..5, 0u8..16, any::<u128>(), any::<u64>()).prop_map(|(width, shape, v, s)| {
         let bits: u32 = match width {
             2 => 32,
             3 => 64,
@@ -1167,6 +1167,19 @@ fn prim_root_case() -> impl Strategy<Value = PrimRoot> {
             8 => v >> sh,
             9 => 1u128 << sh,
             10 => (1u128 << sh).wrapping_sub(1) & mask,
+            // perfect powers just above a power of two (where the normalising shift of the root
+            // algorithms changes), minus a small amount: k = ceil(root(2^e)) + d, x = k^n - j
+            12..=15 => {
+                let n: u32 = if shape % 2 == 0 { 2 } else { 3 };
+                let e = 3 + (s as u32 >> 8) % (bits - 3);
+                let base = num_integer::Roots::nth_root(&(1u128 << e), n);
+                let k = base + 1 + (s as u128 >> 40) % 1000;
+                let j = [1u128, 1, 2, 3, (s as u128 >> 16) % 100_000][(s % 5) as usize];
+                match k.checked_pow(n) {
+                    Some(pw) if pw & mask == pw => pw - j.min(pw),
+                    _ => mask - j,
+                }
+            }
             _ => v,
         };
         PrimRoot { x, width }
